@@ -40,6 +40,8 @@ func runC02(c *Ctx, r *Report) {
 	importRules(c, r, "C01", []string{"R-C01.4"}, "R-C02.13")
 	r.Doc("R-C02.14", "the keys of a head set are only read: nobody filters, sorts or appends onto the key slice an entry map hands out (adopted from C05: the merging log would edit the head set of the log it merges from, which loses a head nothing references)")
 	importRules(c, r, "C05", []string{"R-C05.13"}, "R-C02.14")
+	r.Doc("R-C02.15", "a loader that takes the heads from the manifest hands on only entries its walk from those heads returned (an entry added from a list the caller holds is referenced by nothing and is no head)")
+	snapshotEntriesComeFromTheWalk(c, r, "R-C02.15")
 	r.Doc("R-C02.9", "the predecessor index that decides which entries are referenced is keyed by predecessor links of the filed entry (not by its references, not by another list)")
 	indexKeys(c, r, "R-C02.9")
 
